@@ -1,6 +1,7 @@
 package main
 
 import (
+	"os"
 	"fmt"
 	"go/constant"
 	"go/token"
@@ -126,6 +127,17 @@ func checkC09(p *Prog, r *Report) {
 	h := newHeap(p)
 	bad := 0
 	for _, m := range h.ModsOf(rng) {
+		if os.Getenv("DBGC09") != "" {
+			fmt.Fprintf(os.Stderr, "MOD %s %s %s\n", m.Kind, m.Loc, m.Fn)
+		}
+		// the ID list and the sorting rules belong to the caller too: the next
+		// page is usually asked for with the same slices
+		if root := rootOf(m.Loc); (root == "P1" || root == "P3") && strings.Contains(m.Loc, "[]") {
+			bad++
+			r.bad("C09.input-preserved", fmt.Sprintf("Range:%s:%s@%s", m.Kind, m.Loc, m.Fn), p.pos(m.Pos),
+				"Range writes into the list it was given as an argument ("+m.Kind+" of "+m.Loc+" in "+m.Fn+"): "+m.Desc+"; a later call with the same slice (the next page) selects or orders differently, so consecutive pages no longer partition the result")
+			continue
+		}
 		if rootOf(m.Loc) != "P0" {
 			continue
 		}
@@ -391,7 +403,27 @@ func checkBytesLoop(p *Prog, r *Report, less *ssa.Function, ta *ssa.TypeAssert) 
 		}
 	})
 	if usesCompare {
-		r.ok("C09.bytes-lexicographic", "Less:[]uint8", p.pos(ta.Pos()), "uses bytes.Compare / bytes.Equal")
+		// bytes.Compare is the whole lexicographic order (shorter prefix first):
+		// a comparison of the two lengths next to it changes the order
+		lenCmp := ""
+		eachInstr(less, func(ins ssa.Instruction) {
+			if !arm.Dominates(ins.Block()) {
+				return
+			}
+			bo, ok := ins.(*ssa.BinOp)
+			if !ok {
+				return
+			}
+			isLen := func(v ssa.Value) bool {
+				c, _ := callOf(v)
+				return c != nil && builtinName(c.Common()) == "len"
+			}
+			if isLen(bo.X) && isLen(bo.Y) {
+				lenCmp = p.describe(bo)
+			}
+		})
+		r.decide(lenCmp == "", "C09.bytes-lexicographic", "Less:[]uint8", p.pos(ta.Pos()), "uses bytes.Compare / bytes.Equal",
+			"next to bytes.Compare the []byte arm of Less also compares the two lengths ("+lenCmp+"): byte strings are then ordered by length first, not lexicographically")
 		return
 	}
 	good := eqTest != nil && ltRet != nil
